@@ -309,12 +309,12 @@ def judge(ctx, tasks, results):
             a, b = EP.obs_public(o), EP.obs_public(s)
             if a != b:
                 diff = {k: (a[k], b[k]) for k in a if a[k] != b[k]}
-                key = "rtq-ambiguous-text" if EP.rtq_ambiguous(qs[i]) else "thread-result:%s:%s" % (name, hx(qs[i]))
+                key = "rtq-ambiguous-text" if EP.rtq_involved(qs) else "thread-result:%s:%s" % (name, hx(qs[i]))
                 ctx.violation(key, "%s, threads %r under schedule [%s]: thread %d returns %r, alone it returns %r" % (
                     name, qs, rle(schedule), i, {k: v[0] for k, v in diff.items()}, {k: v[1] for k, v in diff.items()}), case)
         for vkey, text in r["findings"]:
             k = vkey.split(":", 1)[1]
-            ctx.violation("rtq-ambiguous-text" if EP.rtq_ambiguous(k) else "final-cache:%s:%s" % (name, vkey),
+            ctx.violation("rtq-ambiguous-text" if (EP.rtq_ambiguous(k) or EP.rtq_involved(qs)) else "final-cache:%s:%s" % (name, vkey),
                           "%s, threads %r under schedule [%s]: at quiescence %s" % (name, qs, rle(schedule), text), case)
         if switched and len(ctx.samples) < 5:
             ctx.sample(dict(cache=name, queries=qs, schedule=schedule, traces=[l.split(" # ")[-1][:200] for l in r["lines"]]))
